@@ -38,6 +38,12 @@ type violationRec struct {
 	Digest     string             `json:"digest"`
 	Race       bool               `json:"race_build"`
 	Extra      map[string]any     `json:"extra,omitempty"`
+	// the run indices this worker process executed before the violating run are
+	// Start, Start+Stride, ... < Run (state a changed library keeps between calls
+	// can make a finding depend on them: see the replay file's prelude)
+	Seed   uint64 `json:"worker_seed"`
+	Start  uint64 `json:"worker_start"`
+	Stride uint64 `json:"worker_stride"`
 }
 
 type summaryRec struct {
@@ -201,6 +207,7 @@ func batch(args []string) {
 		if r.Violation != nil {
 			sum.Violations++
 			rec := minimise(prop, tape.Record(), r, i, *tier, *noShrink)
+			rec.Seed, rec.Start, rec.Stride = *seed, *start, *stride
 			if err := enc.Encode(rec); err != nil {
 				fmt.Fprintln(os.Stderr, "worker: cannot encode violation record:", err)
 				os.Exit(2)
@@ -285,6 +292,14 @@ type replayFile struct {
 	Tape     simkit.Tape `json:"tape"`
 	Tier     string      `json:"tier"`
 	Run      uint64      `json:"run_index"`
+	// Prelude: runs to re-execute (in generate mode) before the tape, recreating
+	// what the worker process had executed before the violating run.
+	Prelude *struct {
+		Seed   uint64 `json:"seed"`
+		First  uint64 `json:"first"`
+		Stride uint64 `json:"stride"`
+		Count  uint64 `json:"count"`
+	} `json:"prelude,omitempty"`
 }
 
 func replay(args []string) {
@@ -310,8 +325,14 @@ func replay(args []string) {
 	if rf.Tier == "" {
 		rf.Tier = "quick"
 	}
+	if p := rf.Prelude; p != nil && p.Stride > 0 {
+		for k := uint64(0); k < p.Count; k++ {
+			idx := p.First + k*p.Stride
+			prop.Run(simhook.NewGenTape(p.Seed, rf.Property, idx), simkit.RunOpt{Tier: rf.Tier, RunIndex: idx, FirstInProc: k == 0})
+		}
+	}
 	rt := simhook.NewReplayTape(rf.Tape)
-	r := prop.Run(rt, simkit.RunOpt{Tier: rf.Tier, KeepHistory: true, RunIndex: rf.Run, FirstInProc: true})
+	r := prop.Run(rt, simkit.RunOpt{Tier: rf.Tier, KeepHistory: true, RunIndex: rf.Run, FirstInProc: rf.Prelude == nil})
 	rec := violationRec{Type: "replay", Run: rf.Run, Violation: r.Violation, Tape: rt.Record(), History: r.History,
 		SchedTrace: r.SchedTrace, FaultTrace: r.FaultTrace, Policy: r.Policy, Steps: r.Steps, Race: simhook.RaceBuild,
 		Digest: fmt.Sprintf("%016x", runDigest(r)), Extra: r.Extra}
